@@ -12,6 +12,11 @@ mod plan;
 mod conc;
 mod mem;
 mod zm;
+mod sparql;
+mod push;
+mod ser;
+mod qa;
+mod c15b;
 mod lpg;
 mod ops;
 mod opt;
@@ -65,6 +70,11 @@ fn main() {
                 "conc" => conc::generate(seed, cases, &mut out),
                 "mem" => mem::generate(seed, cases, &mut out),
                 "zm" => zm::generate(seed, cases, &mut out),
+                "sparql" => sparql::generate(seed, cases, &mut out),
+                "push" => push::generate(seed, cases, &mut out),
+                "ser" => ser::generate(seed, cases, &mut out),
+                "qa" => qa::generate(seed, cases, &mut out),
+                "c15b" => c15b::generate(seed, cases, &mut out),
                 "q" => q::generate(seed, cases, &mut out),
                 "opt" => opt::generate(seed, cases, &mut out),
                 "hnsw" => hnsw::generate(seed, cases, &mut out),
@@ -144,6 +154,11 @@ fn main() {
                     Some("opt") => opt::run(&toks[1..]),
                     Some("pers") => pers::run(&mut persst, &toks[1..]),
                     Some("zm") => zm::run(&mut zmst, &toks[1..]),
+                    Some("sparql") => sparql::run(&toks[1..]),
+                    Some("push") => push::run(&toks[1..]),
+                    Some("ser") => ser::run(&toks[1..]),
+                    Some("qa") => qa::run(&toks[1..]),
+                    Some("c15b") => c15b::run(&toks[1..]),
                     Some("hnsw") => hnsw::run(&toks[1..]),
                     _ => "bad-op".to_string(),
                 };
